@@ -28,6 +28,8 @@ use turmoil_net::{Packet, RuleGuard, Verdict};
 
 pub const UDP_PORT: u16 = 7000;
 pub const TCP_PORT: u16 = 8000;
+/// `to` of a datagram / connect that goes to an address no host owns
+pub const UNOWNED: usize = 255;
 
 // ------------------------------------------------------------------------------------------------
 // scenario
@@ -133,6 +135,8 @@ struct Wire<'a> {
     got: BTreeMap<u64, Vec<usize>>,
     accept_flag: WakeFlag,
     nontrivial: bool,
+    /// tags of datagrams accepted for another host or an unowned address and not yet seen leaving their host
+    expect_wire: BTreeSet<u64>,
 }
 
 impl<'a> Wire<'a> {
@@ -144,11 +148,26 @@ impl<'a> Wire<'a> {
     }
 
     fn dst_ip(&self, from: usize, to: usize, sel: u8) -> Option<IpAddr> {
+        if to == UNOWNED {
+            // an address no host owns: the packet leaves its host (and must be shown to the rules)
+            return Some(if sel % 2 == 0 { "10.250.0.9".parse().unwrap() } else { "fd00:dead::9".parse().unwrap() });
+        }
         let a = &self.d.addrs[to];
         if (sel as usize) < a.len() {
             Some(a[sel as usize])
         } else if from == to {
-            Some(if sel % 2 == 0 { "127.0.0.1".parse().unwrap() } else { "::1".parse().unwrap() })
+            Some(match sel as usize - a.len() {
+                0 | 1 => {
+                    if sel % 2 == 0 {
+                        "127.0.0.1".parse().unwrap()
+                    } else {
+                        "::1".parse().unwrap()
+                    }
+                }
+                // any other address of 127.0.0.0/8 is the host itself just as well
+                2 => "127.0.0.2".parse().unwrap(),
+                _ => "127.9.8.7".parse().unwrap(),
+            })
         } else {
             None
         }
@@ -303,6 +322,17 @@ impl<'a> Wire<'a> {
         self.d.egress(&mut out);
         let n = out.len();
         let mut mid_done = mid.is_none();
+        // every datagram accepted for another host (or for nobody's address) is in this batch: it is shown
+        // to the rules even if it will be delivered nowhere
+        for p in &out {
+            if let Some(t) = tag_of_pkt(p) {
+                self.expect_wire.remove(&t);
+            }
+        }
+        if let Some(t) = self.expect_wire.iter().next().copied() {
+            self.fail("NotShownToRules", format!("datagram tag {t} was accepted by send_to for an address off its host, but it is not among the {} packets that left the hosts in the next round (it can never be shown to the rule chain)", out.len()));
+            return n;
+        }
         for (i, p) in out.into_iter().enumerate() {
             if let Some((pos, e)) = mid {
                 if !mid_done && i >= pos as usize {
@@ -376,11 +406,25 @@ impl<'a> Wire<'a> {
                 let r = self.d.on(*from, || u.try_send_to(&tag_bytes(t), SocketAddr::new(ip, UDP_PORT)));
                 if matches!(r, Ok(8)) {
                     let local = from == to;
+                    if *to == UNOWNED {
+                        self.sent.insert(t, (*to, false));
+                        self.expect_wire.insert(t);
+                        self.log.ev(format!("udp tag {t} h{from} -> {ip} (nobody's address)"));
+                        self.log.tag("udp-unowned");
+                        self.rep.probes.inc("datagrams_to_unowned_address");
+                        return;
+                    }
+                    if !local {
+                        self.expect_wire.insert(t);
+                    }
                     self.sent.insert(t, (*to, true));
                     self.log.ev(format!("udp tag {t} h{from} -> {ip} ({})", if local { "own host" } else { "remote" }));
                     self.log.tag(if local { "udp-local" } else { "udp" });
                     if local {
                         self.rep.probes.inc(if ip.is_loopback() { "loopback_datagrams" } else { "own_address_datagrams" });
+                        if ip.is_loopback() && ip != "127.0.0.1".parse::<IpAddr>().unwrap() && ip.is_ipv4() {
+                            self.rep.probes.inc("loopback_datagrams_to_other_127_addresses");
+                        }
                     }
                 }
             }
@@ -514,6 +558,7 @@ fn run_wire(sc: &WireSc, keep: bool) -> Report {
         got: BTreeMap::new(),
         accept_flag: WakeFlag::new(),
         nontrivial: false,
+        expect_wire: BTreeSet::new(),
     };
     for r in &sc.pre {
         w.log.ev(format!("Net::rule rule{} table {:?}", r.id, r.table.iter().map(|v| v.name()).collect::<Vec<_>>()));
@@ -625,8 +670,8 @@ fn gen_wire(rng: &mut Rng) -> WireSc {
             0 => evs.push(rule_op(rng, &mut next_id, &mut held)),
             1 => {
                 let from = rng.below(nh as u64) as usize;
-                let to = if rng.chance(1, 4) { from } else { rng.below(nh as u64) as usize };
-                let sel = rng.below(hosts[to].len() as u64 + if to == from { 2 } else { 0 }) as u8;
+                let to = if rng.chance(1, 4) { from } else if rng.chance(1, 10) { UNOWNED } else { rng.below(nh as u64) as usize };
+                let sel = if to == UNOWNED { rng.below(2) as u8 } else { rng.below(hosts[to].len() as u64 + if to == from { 4 } else { 0 }) as u8 };
                 for _ in 0..rng.range(1, 3) {
                     evs.push(Ev::Udp { from, to, sel });
                 }
@@ -634,7 +679,7 @@ fn gen_wire(rng: &mut Rng) -> WireSc {
             2 => {
                 let from = rng.below(nh as u64) as usize;
                 let to = rng.below(nh as u64) as usize;
-                let sel = rng.below(hosts[to].len() as u64 + if to == from { 1 } else { 0 }) as u8;
+                let sel = rng.below(hosts[to].len() as u64 + if to == from { 3 } else { 0 }) as u8;
                 conns += 1;
                 evs.push(Ev::TcpConnect { conn: conns, from, to, sel });
             }
